@@ -214,8 +214,11 @@ def gen_hier(rnd: random.Random, nvars: int, force: str | None = None) -> dict:
     builds = ["nocopy"]
     if force == "rebuild" or rnd.random() < 0.08:
         builds = rnd.choice([["copy", "copy"], ["copy", "copy", "copy"], ["copy", "nocopy"], ["copy", "copy", "nocopy"]])
+    builder_add = None
+    if user and rnd.random() < (0.6 if force in ("user", "rebuild") else 0.3):
+        builder_add = {"order": rnd.choice(["set_then_add", "set_then_add", "add_then_set"]), "other": rnd.choice(["none", "none", "own"])}
     return {"kind": "hier", "f32": rnd.random() < 0.25, "vars": vs, "free": free, "user": user,
-            "reject": reject, "builds": builds,
+            "reject": reject, "builds": builds, "builder_add": builder_add,
             "nodist_node": force == "nodist" or rnd.random() < 0.05, "force": force,
             # "roots": only variables that no other variable reads are added to the GraphBuilder, the others are
             # reached as recursive inputs
@@ -299,6 +302,12 @@ def gen_positions(rnd: random.Random, prog: dict, nsteps: int, force: str | None
             if not pos:
                 pos["s0_beta"] = [dy(rnd, -1, 1) for _ in prog["smooths"][0]["beta"]]
         extra = {}
+        if force == "simfail" or rnd.random() < 0.06:
+            # a simulate() call (it FAILS when the model has a weak variable with a distribution or a distribution
+            # object without .sample), caught; then all values are assigned back plus this position
+            steps.append({"mode": "simfail", "pos": pos})
+            cur.update({k: v for k, v in pos.items() if not k.endswith("_transformed")})
+            continue
         if prog.get("reject") and (force == "reject" or rnd.random() < 0.12):
             # a rejected assignment followed by continued use: assign the bad value (the auto-update raises),
             # assign the other variables of this position, then an admissible value for the rejected variable
@@ -522,7 +531,21 @@ def build_all(prog: dict, flip_per_obs: bool = False) -> list:
                 read.update(u["args"])
         inner = {id(objs[nm]) for nm in read}
         added = [a for a in added if id(a) not in inner]
+    # builder history: part of the graph may arrive through ANOTHER GraphBuilder that is added to gb, before or
+    # after gb's user-defined total nodes are set; the other builder holds no user nodes or its own (distinct) ones
+    ba = prog.get("builder_add")
+    other = None
+    if ba:
+        half = len(added) // 2
+        other = lsl.GraphBuilder(to_float32=prog["f32"])
+        other.add(*added[half:])
+        added = added[:half]
+        if ba["other"] == "own":
+            for which in prog["user"]:
+                setattr(other, f"log_{which}_node", lsl.Value(f(-99.0), _name=f"other_user_{which}"))
     gb.add(*added)
+    if other is not None and ba["order"] == "add_then_set":
+        gb.add(other)
     for which, u in prog["user"].items():
         args = [objs[a] for a in u["args"]]
         if u["kind"] == "calc":
@@ -535,6 +558,8 @@ def build_all(prog: dict, flip_per_obs: bool = False) -> list:
             node = lsl.Value(f(u["value"]), _name=f"user_{which}")
         B.user_nodes[which] = node
         setattr(gb, f"log_{which}_node", node)
+    if other is not None and ba["order"] == "set_then_add":
+        gb.add(other)
     return _finish(B, gb, autos)
 
 
@@ -605,6 +630,24 @@ def apply_position(B: Built, pos: dict, manual: bool, inplace: bool = False):
     if manual:
         B.model.update()
         B.model.auto_update = True
+
+
+def simulate_then_restore(B: Built) -> dict:
+    """model.simulate(key) - caught if it fails -, then every assignable value is assigned back (simulate may have
+    drawn some variables before failing).  Returns what happened and model.auto_update right after simulate."""
+    import numpy as np
+    import jax
+    snap = {k: np.array(o.value) for k, o in B.assign.items()}
+    before = bool(B.model.auto_update)
+    raised = False
+    try:
+        B.model.simulate(jax.random.PRNGKey(7))
+    except Exception as ex:   # noqa
+        raised = type(ex).__name__
+    after = bool(B.model.auto_update)
+    for k, val in snap.items():
+        B.assign[k].value = np.asarray(val, dtype=B.dtype)
+    return {"raised": raised, "auto_update_before": before, "auto_update_after": after}
 
 
 def reject_window(B: Built, st: dict) -> dict:
